@@ -49,6 +49,12 @@ class Run:
         for rep in reports:
             funcs[rep.name] = dict(paths=rep.paths, obligations=len(rep.obligations), status='proved',
                                    cases=[c for c, _ in rep.cases])
+            la, lh = getattr(rep, 'lines_all', set()), getattr(rep, 'lines_hit', set())
+            if la:
+                # statements of the function that no explored path executed: excluded by the precondition / the contract
+                # cases, dead -- or a path the engine lost (every entry deserves a look)
+                funcs[rep.name]['statements'] = len(la)
+                funcs[rep.name]['statements_not_executed_at_lines'] = sorted(la - lh)
         backends = {}
         solver_time = 0.0
         samples = []
